@@ -1182,7 +1182,10 @@ class FuncGraph:
     def _loop(self, s, st, loop, kind):
         body_names = assigned_names(s.body + ([ast.Assign(targets=[s.target], value=ast.Constant(value=None))] if kind == "for" else []))
         lid = self.node(st, "loop", identity=True)
-        it = self.expr(s.iter, st) if kind == "for" else None
+        it_node = s.iter if kind == "for" else None
+        if isinstance(it_node, ast.Call) and isinstance(it_node.func, ast.Attribute) and it_node.func.attr == "keys" and not it_node.args and not it_node.keywords:
+            it_node = it_node.func.value          # `for k in d.keys()` = `for k in d`
+        it = self.expr(it_node, st) if kind == "for" else None
         # names whose value of the previous iteration can be read, or that are read outside the loop body: only those
         # are loop-carried; the others are temporaries of one iteration
         outside = self._loads_outside(s)
